@@ -77,7 +77,7 @@ def ref_addr(path, kind, testnet=False):
 
 
 # ------------------------------------------------------------------------------------------------ E2: histories
-OPS = [["by_path", "m/0"], ["by_path", "m/0/1"], ["by_path", "m/0/1/2/3/4/5'/6"], ["by_path", "m/44'/0'/0'"], ["by_path", "m/0'"],
+OPS = [["by_path", "m/0"], ["by_path", "m/0/1"], ["by_path", "m/0/1/2/3/4/5'/6"], ["by_path", "m/0/1/2/3/4/7"], ["by_path", "m/0/1/2/3/4"], ["by_path", "m/44'/0'/0'"], ["by_path", "m/0'"],
        ["ckd", 0], ["ckd", 1], ["ckd", H], ["children"], ["concat"],
        ["genA", "next"], ["genA", "send", 2], ["genA", "send", 0], ["genB", "next"],
        ["addr"], ["xkeys"], ["bip85hex"], ["bip85wif"], ["wasabi"], ["bad", "ckd"], ["bad", "by_path"], ["bad", "bip85"], ["clone", "copy.deepcopy"], ["generate"]]
@@ -341,7 +341,7 @@ STATE_FILES = ["bip32.py", "base_wallet.py", "paper_wallet.py", "bip85.py", "wal
 
 
 TOPS = ["ckd0", "ckd1", "ckd2", "bpA", "bpB", "bpDeep", "bpDeep2", "children", "gen", "xkeys", "wif0", "wif1", "hex", "wasabi", "p2wpkh", "p2sh_p2wsh", "p2pkh0", "p2pkh1",
-        "generate", "wifnode", "xprvnode", "ser9", "parsexpub", "h_bech32", "h_b58", "h_script", "h_wif", "h_varint"]
+        "generate", "wifnode", "xprvnode", "ser9", "parsexpub", "pubckdA", "pubckdB", "h_bech32t", "h_bech32", "h_b58", "h_script", "h_wif", "h_varint"]
 
 
 def harness(name):
@@ -360,6 +360,11 @@ def harness(name):
         m1 = master.ckd(1) if "p2pkh1" in need else None
         acct = w.by_path("m/84'/0'/0'") if "xkeys" in need else None
         root0 = master.extended_private_key()
+        pubA = pubB = None
+        if need & {"pubckdA", "pubckdB"}:
+            PubCls = type(master).__mro__[1]
+            pubA = PubCls.parse(hd.xpub(hd.derive(master_ref(), [5])))
+            pubB = PubCls.parse(hd.xpub(hd.derive(master_ref(), [6])))
 
         def gen_body():
             g = w.address_generator(m0)
@@ -383,6 +388,9 @@ def harness(name):
             # eight scratch objects goes once round
             "ser9": lambda: [m0.extended_public_key() if j % 2 else m0.extended_private_key() for j in range(9)],
             "parsexpub": lambda: c(type(master).__mro__[1].parse(xpub_m)),
+            # public-only derivation in both threads, from two different watch-only parents (module-level scratch of CKDpub)
+            "pubckdA": lambda: c(pubA.ckd(3)), "pubckdB": lambda: c(pubB.ckd(4)),
+            "h_bech32t": _h_bech32t,
             "h_bech32": _h_bech32, "h_b58": _h_b58, "h_script": _h_script, "h_wif": _h_wif, "h_varint": _h_varint,
         }
         bodies = [B[o] for o in ops]
@@ -428,6 +436,12 @@ def _h_bech32():
     return [a, list(bech32.decode("bc", a)[1])]
 
 
+def _h_bech32t():
+    from btc_hd_wallet import bech32
+    a = bech32.encode("tb", 0, list(_PAY[:20]))       # the OTHER prefix and checksum constant than _h_bech32
+    return [a, list(bech32.decode("tb", a)[1])]
+
+
 def _h_b58():
     from btc_hd_wallet import helper
     s1 = helper.encode_base58_checksum(b"\x00\x00" + _PAY[:20])
@@ -466,6 +480,8 @@ def _helper_expected(op):
     k = int.from_bytes(_PAY[:32], "big")
     if op == "h_bech32":
         return [enc_ref.segwit_encode("bc", 16, _PAY[:2]), list(_PAY[:2])]
+    if op == "h_bech32t":
+        return [enc_ref.segwit_encode("tb", 0, _PAY[:20]), list(_PAY[:20])]
     if op == "h_b58":
         p1, p2 = b"\x00\x00" + _PAY[:20], b"\x80" + _PAY[:32] + b"\x01"
         return [enc_ref.b58check_encode(p1), p1.hex(), enc_ref.b58check_encode(p2), p2.hex()]
@@ -537,6 +553,12 @@ def expected_op(op):
         return [hd.xpub(hd.derive(m, [0])) if j % 2 else hd.xprv(hd.derive(m, [0])) for j in range(9)], []
     if op == "parsexpub":
         return hdscen.canon_ref_node(hd.neuter(hd.derive(m, [5]))), []
+    if op in ("pubckdA", "pubckdB"):
+        a_, i_ = (5, 3) if op == "pubckdA" else (6, 4)
+        par = hd.neuter(hd.derive(m, [a_]))
+        par = par._replace(depth=1, index=a_, pfp=hd.fingerprint(m.K))
+        return hdscen.canon_ref_node(hd.derive(par, [i_])), []
+
     if op == "generate":
         return hd.paper_generate(m, False, 1, (0, 1), None, None), [H + 44, H + 49, H + 84] + [H + 83696968] * 9
     raise ValueError(op)
@@ -740,25 +762,26 @@ def plan_for(thorough):
     for i, a in enumerate(b85):
         for b in b85[i:]:
             pairs.append((a, b))
-    pairs += [("xprvnode", "ser9"), ("xkeys", "ser9"), ("xkeys", "xkeys"), ("xkeys", "ckd0"), ("wif0", "bpA"), ("wasabi", "bpA"), ("wasabi", "wif0"), ("bpDeep", "bpB"), ("bpDeep", "bpDeep2")]
+    pairs += [("generate", "generate"), ("xprvnode", "ser9"), ("xkeys", "ser9"), ("xkeys", "xkeys"), ("xkeys", "ckd0"), ("wif0", "bpA"), ("wasabi", "bpA"), ("wasabi", "wif0"), ("bpDeep", "bpB"), ("bpDeep", "bpDeep2")]
     if thorough:
-        state_ops = [o for o in TOPS if o not in ("p2wpkh", "p2sh_p2wsh", "p2pkh0", "p2pkh1", "generate", "ckd2", "wifnode", "xprvnode", "ser9", "parsexpub")
+        state_ops = [o for o in TOPS if o not in ("p2wpkh", "p2sh_p2wsh", "p2pkh0", "p2pkh1", "generate", "ckd2", "wifnode", "xprvnode", "ser9", "parsexpub", "pubckdA", "pubckdB")
                      and not o.startswith("h_")]
-        keep_pairs = [p_ for p_ in pairs if "ser9" in p_]
+        keep_pairs = [p_ for p_ in pairs if "ser9" in p_ or p_ == ("generate", "generate")]
         pairs = [(a, b) for i, a in enumerate(state_ops) for b in state_ops[i:]] + keep_pairs
     for a, b in pairs:
         name = "%s|%s" % (a, b)
         if name not in ("ckd0|ckd0", "ckd0|ckd1"):
             plan.append((name, "state", 1))
     # every line of every module: one wallet-level pair whose threads share keys/ripemd/base58/script, plus pure-helper pairs
-    plan += [("p2sh_p2wsh|p2pkh0", "all", 1), ("h_bech32|h_bech32", "all", 1), ("h_b58|h_b58", "all", 1), ("h_script|h_script", "all", 1),
+    plan += [("pubckdA|pubckdB", "all", 1), ("ckd0|ckd1", "all", 1), ("h_bech32|h_bech32t", "all", 1),
+             ("p2sh_p2wsh|p2pkh0", "all", 1), ("h_bech32|h_bech32", "all", 1), ("h_b58|h_b58", "all", 1), ("h_script|h_script", "all", 1),
              ("h_wif|h_b58", "all", 1), ("h_varint|h_script", "all", 1), ("h_bech32|h_b58", "all", 1)]
     if thorough:
         plan += [("p2pkh0|p2pkh1", "all", 1), ("p2wpkh|p2sh_p2wsh", "all", 1), ("h_wif|h_wif", "all", 1)]
         plan = [(n, g, 3 if n in ("ckd0|ckd0", "ckd0|ckd1") else b) for n, g, b in plan]
         plan += [("ckd0|ckd1|ckd2", "state", 2), ("bpA|bpB", "state", 2), ("children|gen", "state", 2), ("gen|gen", "state", 2), ("wif0|wif1", "state", 2),
                  ("xkeys|ckd0", "state", 2), ("hex|bpA", "state", 2), ("generate|wasabi", "state", 1),
-                 ("p2wpkh|p2wpkh", "all", 1), ("ckd0|ckd1", "all", 1), ("wif0|wif1", "all", 1), ("bpA|bpB", "all", 1),
+                 ("p2wpkh|p2wpkh", "all", 1), ("wif0|wif1", "all", 1), ("bpA|bpB", "all", 1),
                  ("xprvnode|parsexpub", "all", 1), ("wifnode|p2sh_p2wsh", "all", 1), ("parsexpub|parsexpub", "all", 1),
                  # bytecode-instruction granularity (sys.monitoring) on the state modules: switches INSIDE a source line
                  ("ckd0|ckd1", "instr", 1), ("ckd0|ckd0", "instr", 1), ("bpA|bpB", "instr", 1), ("children|gen", "instr", 1), ("gen|gen", "instr", 1),
